@@ -65,9 +65,13 @@ PARTIAL = [
     "value-level equality of the new state with the ordered product of the gates is PROVED for the labelled-network "
     "semantics (two_site_gate_value, single_site_gate_value, swap_gate_value, tebd_step_value, tebd_steps_value: any "
     "commutative semiring, all dimensions) GIVEN the tensordot identities of contract_nodes / absorb_into_open_legs and "
-    "the exact factorisation of split_node_svd as hypotheses (truncation disabled); that NumPy's tensordot / the "
-    "library's routines satisfy these identities, floating point, expm and the truncated case are decided per input by "
-    "the dense oracle and the `value` correspondence",
+    "the exact factorisation of split_node_svd as hypotheses (truncation disabled); the *_loop_value theorems "
+    "(two_site_gate_loop_value, single_site_gate_loop_value, tebd_step_loop_value) discharge the two tensordot "
+    "identities: the model's own contract_nodes / absorb_into_open_legs sequence is proved to be the contraction "
+    "program tensordot(tensordot(P, C), G) (relation Built) whose value is the sum, so only the exact split remains "
+    "a hypothesis (local and global label sets are linked by the form of the pairs, not by a relabelling theorem); "
+    "that NumPy's tensordot / the library's routines agree with the model, floating point, expm and the truncated "
+    "case are decided per input by the dense oracle and the `value` correspondence",
     "an operator that names no site is skipped by _apply_one_trotter_step (`pass`); the value theorems state this "
     "(gateAct of [] is the identity).  Such an exponent cannot be produced through TensorProduct.exp (an empty "
     "product raises), so the property (single-site and nearest-neighbour terms) has no clause about it",
